@@ -272,6 +272,16 @@ def family_F5(quick):
       lines = g1_graph(names, links, None, ["RC"], ["RC"])
       yield unit("F5", "gfa1", lines,
                  [("A", k, pol) for k, pol in calls((0, 2, 3))])
+  # GFA2: unnamed E lines that are identical in every field are still
+  # distinct edges (parallel edges); each must be divided and copied
+  for p, q in end_pairs(names):
+    for ncopies in (2, 3):
+      for tags in ([], ["RC:i:12"]):
+        es = [e_line(p, q, "*") + tags for _ in range(ncopies)]
+        lines = [T(["S", x, str(G2LEN[x]), "*", "RC:i:7"]) for x in names]
+        lines += [T(e) for e in es]
+        yield unit("F5", "gfa2", lines,
+                   [("A", k, pol) for k, pol in calls((0, 2, 3), ("off", "R"))])
   selfc = ["C", "A", "+", "A", "+", "0", "*"]
   for nl in (0, 1):
     for combo in itertools.combinations(end_pairs(names), nl):
